@@ -122,9 +122,59 @@ func check(v *tlx.Val) (skipped bool, err error) {
 				return fmt.Errorf("%s: reference bytes decode (named type) to a different value at %s", v.Def.Name, d)
 			}
 		}
+		// the same value again with one sub-object in two places (a caller resolves a peer once and uses it twice, a
+		// vector names one object twice): the same Go pointer on both sides
+		if shareSubvalues(v) {
+			run.Class("feat:one-object-in-two-places", 1)
+			refS, err := tlx.Encode(v)
+			if err != nil {
+				return nil
+			}
+			gs, err := tlx.BridgeShared(reg, v)
+			if err != nil {
+				return nil
+			}
+			gotS, err := tl.Marshal(gs.Interface())
+			if err != nil {
+				return fmt.Errorf("%s with one object referenced from two places: Marshal: %v", v.Def.Name, err)
+			}
+			if !bytes.Equal(gotS, refS) {
+				return fmt.Errorf("%s with one object referenced from two places: serialisation differs from the schema-defined one at byte %d", v.Def.Name, firstDiff(gotS, refS))
+			}
+		}
 		return nil
 	})
 	return
+}
+
+// shareSubvalues makes the second of two sub-values of the same constructor (two fields, or two items of one vector)
+// the very same abstract value as the first. Reports whether it found such a pair.
+func shareSubvalues(v *tlx.Val) bool {
+	first := map[uint32]*tlx.Val{}
+	done := false
+	visit := func(x any) any {
+		sv, ok := x.(*tlx.Val)
+		if !ok || sv == nil || len(sv.Def.Params) == 0 {
+			return x
+		}
+		if f, seen := first[sv.Def.ID]; seen && f != sv {
+			done = true
+			return f
+		}
+		first[sv.Def.ID] = sv
+		return x
+	}
+	for i, f := range v.Fields {
+		switch x := f.(type) {
+		case *tlx.Val:
+			v.Fields[i] = visit(x)
+		case []any:
+			for k := range x {
+				x[k] = visit(x[k])
+			}
+		}
+	}
+	return done
 }
 
 var pool hx.Pool[Case]
